@@ -601,58 +601,66 @@ func stepName(s string) string {
 	return s
 }
 
-// shapeClass abstracts a flow for coverage signatures: per node E (END), F (filter) or
-// R (filter already used earlier in the flow), followed by j / e when the node has a jump
-// to a node / to END; flow-level markers +a (some alias) and +n (some namespace).
-func shapeClass(p *gPipe) string {
+// shapeClass abstracts a flow for coverage signatures: number of nodes, of END nodes and
+// of nodes re-using an earlier filter, then markers a (some alias), n (some namespace),
+// j (some jump to a node), e (some jump to END).  coarse drops the markers.
+func shapeClass(p *gPipe, coarse bool) string {
 	if p == nil {
 		return "-"
 	}
-	var b strings.Builder
 	used := map[string]bool{}
-	alias, ns := false, false
+	ends, reuse := 0, 0
+	alias, ns, toNode, toEnd := false, false, false, false
 	for i := range p.Flow {
 		n := &p.Flow[i]
 		if n.isEnd() {
-			b.WriteByte('E')
+			ends++
 			continue
 		}
 		if used[n.Filter] {
-			b.WriteByte('R')
-		} else {
-			b.WriteByte('F')
+			reuse++
 		}
 		used[n.Filter] = true
 		alias = alias || n.Alias != ""
 		ns = ns || n.NS != ""
-		toNode, toEnd := false, false
 		for _, j := range n.Jump {
 			toEnd = toEnd || j.Target == endName
 			toNode = toNode || j.Target != endName
 		}
-		if toNode {
-			b.WriteByte('j')
+	}
+	s := fmt.Sprintf("n%dE%dR%d", len(p.Flow), ends, reuse)
+	if coarse {
+		return s
+	}
+	for _, m := range []struct {
+		on bool
+		c  string
+	}{{alias, "a"}, {ns, "n"}, {toNode, "j"}, {toEnd, "e"}} {
+		if m.on {
+			s += m.c
 		}
-		if toEnd {
-			b.WriteByte('e')
-		}
 	}
-	if alias {
-		b.WriteString("+a")
-	}
-	if ns {
-		b.WriteString("+n")
-	}
-	return b.String()
+	return s
 }
 
-// coverSig = mode : flow shape classes | step classes of the result vector | outcome.
+// coverSig = mode : flow shape classes | result vector class | outcome.  The vector
+// class is the number of invocations plus which step kinds occur (f fall through,
+// j jump to the adjacent node, J jump over filter nodes, X jump over an END node).
 func coverSig(mode string, phases []phase, rr *refRun) string {
 	shapes := make([]string, len(phases))
 	for i, ph := range phases {
-		shapes[i] = ph.Name[:1] + "=" + shapeClass(ph.Pipe)
+		shapes[i] = ph.Name[:1] + "=" + shapeClass(ph.Pipe, len(phases) > 1)
 	}
-	return fmt.Sprintf("%s:%s|%s|%s@%s", mode, strings.Join(shapes, ","), strings.Join(rr.Steps, ""), rr.How, rr.Where)
+	kinds := ""
+	for _, k := range []string{"f", "j", "J", "X"} {
+		for _, st := range rr.Steps {
+			if st == k {
+				kinds += k
+				break
+			}
+		}
+	}
+	return fmt.Sprintf("%s:%s|v%d%s|%s@%s", mode, strings.Join(shapes, ","), len(rr.Trace), kinds, rr.How, rr.Where)
 }
 
 // newGlobalFilter creates a real GlobalFilter from its spec (validated by supervisor.NewSpec, then Init).
